@@ -1113,3 +1113,64 @@ class ContextWriteEntity(FnCheck):
     def post(self, ex, st0, st, outcome, b):
         for f in ('StateVersion', 'DescriptorVersion'):
             ex.oblige(st, f'entity_state_{f}_unchanged', z3.Select(st.get_arr('f:' + f), self.estate.e) == z3.Select(st0.get_arr('f:' + f), self.estate.e))
+
+
+@register
+class UpdateCorrespondingState(FnCheck):
+    id = 'C02.update_corresponding_state'
+    prop = 'C02'
+    tag = 'S'
+    opaque_ok = True
+    target = f'{TR}:DescriptorTransaction._update_corresponding_state'
+    field_types = {'DescriptorVersion': 'int', 'StateVersion': 'int', 'is_context_descriptor': 'bool'}
+    doc = ('_update_corresponding_state(descriptor) for a single-state descriptor whose state is already part of the '
+           'transaction: afterwards that state carries the DescriptorVersion of THIS descriptor - whatever descriptor '
+           'object the state referenced before (entity writes leave states referencing private copies)')
+
+    def setup(self, b):
+        st = b.st
+        self.dv = b.int('new_descriptor_version')
+        self.handle = b.str('handle')
+        self.descr = b.obj('descriptor', DescriptorVersion=self.dv, Handle=self.handle, is_context_descriptor=b.bool('is_context_descriptor'))
+        self.other = b.obj('older_copy_of_the_descriptor', DescriptorVersion=b.int('older_version'))
+        self.ref_other = b.bool('state_references_an_older_copy')
+        self.new_state = b.obj('state_in_transaction', DescriptorVersion=b.int('state_descriptor_version'),
+                               descriptor_container=vany(z3.If(self.ref_other.e, Val.ref(self.other.e), Val.ref(self.descr.e))))
+        self.item = b.obj('transaction_item', new=self.new_state, old=b.obj('stored_state'))
+        self.upd = b.obj('updates_dict')
+        st.assume(z3.Select(st.get_arr('C'), self.upd.e) == b.ex.ctx.builtin_class_ids['dict'])
+        st.assume(z3.Select(st.get_arr('DN'), self.upd.e) >= 0)
+        key = Val.str(self.handle.e)
+        st.assume(z3.Select(z3.Select(st.get_arr('DK'), self.upd.e), key))
+        st.assume(z3.Select(z3.Select(st.get_arr('DV'), self.upd.e), key) == Val.ref(self.item.e))
+        st.assume(z3.Not(Val.b(z3.Select(st.get_arr('f:is_context_descriptor'), self.descr.e))))
+        self.o = b.obj('self', cls=(TR, 'DescriptorTransaction'))
+        b.distinct(self.o, self.descr, self.other, self.new_state, self.item, self.upd)
+        return self.o, [self.descr], {}
+
+    def callees(self, ex):
+        def upd_version(ex_, st, args, kwargs):
+            # contract C02.update_descriptor_version: DescriptorVersion := descriptor_container.DescriptorVersion
+            recv = ex_.concrete_kind(st, vany(st.ghost['c:recv']), ('ref',))
+            dc = z3.Select(st.get_arr('f:descriptor_container'), recv.e)
+            st.set_arr('f:DescriptorVersion', z3.Store(st.get_arr('f:DescriptorVersion'), recv.e,
+                                                       z3.Select(st.get_arr('f:DescriptorVersion'), Val.oid(dc))))
+            return NONE
+        return {f'{TR}:DescriptorTransaction._get_states_update': Pure(lambda e, s, a, k: self.upd, name='_get_states_update -> the update dict of the state kind'),
+                '*.update_descriptor_version': Pure(upd_version, name='state.update_descriptor_version (C02.update_descriptor_version)')}
+
+    def hooks(self, ex):
+        class H:
+            tracked_names = ()
+
+            def on_call(self, ex_, st, fv, keys, args, kwargs, node):
+                if fv.t == 'method':
+                    st.ghost['c:recv'] = st.box(fv.recv)
+                return None
+        return H()
+
+    def post(self, ex, st0, st, outcome, b):
+        if outcome[0] == 'exc':
+            return
+        ex.oblige(st, 'state_in_transaction_takes_the_version_of_this_descriptor',
+                  Val.i(z3.Select(st.get_arr('f:DescriptorVersion'), self.new_state.e)) == self.dv.e)
